@@ -43,6 +43,13 @@ class Inter:
                 continue
             if self.fx.has(n):
                 return self.fx.fn(n)
+        # `x.into()` / `x.try_into()` run the blanket impl, whose body is the crate's own `From` / `TryFrom` impl for the two types
+        m = re.search(r"(Try)?Into<.*>>?::(try_)?into$", c.name or "")
+        ty = (c.f or {}).get("args") or []
+        if m and len(ty) == 2:
+            k = "<%s as std::convert::%sFrom<%s>>::%sfrom" % (ty[1], m.group(1) or "", ty[0], m.group(2) or "")
+            if self.fx.has(k):
+                return self.fx.fn(k)
         return None
 
     def is_hit_call(self, c):
